@@ -27,6 +27,8 @@ type vfC14Case struct {
 	Status   int        `json:"status"`
 	Trailers bool       `json:"trailers"`
 	Flushes  bool       `json:"flushes"`
+	// HandlerPanics (server side): the handler panics (http.ErrAbortHandler) after what it wrote of the response
+	HandlerPanics bool `json:"handlerPanics,omitempty"`
 }
 
 // ---- scripted I/O ----
@@ -123,6 +125,7 @@ type vfObservation struct {
 	Writes      []vfReadRec
 	Flushes     int
 	RTErr       string
+	Panic       string
 }
 
 func vfHeaderStr(h http.Header) string {
@@ -294,6 +297,10 @@ func vfRunServer(c vfC14Case, cut int, wrap bool) (*vfObservation, []Trace) {
 				}
 			}
 		}
+		if c.HandlerPanics {
+			// the handler gives up after what it has written (possibly the beginning of a message)
+			panic(http.ErrAbortHandler)
+		}
 		if c.Trailers {
 			w.Header().Set("X-Declared-Trailer", "d1")
 			w.Header().Add(http.TrailerPrefix+"X-Verif-Trailer", "t1")
@@ -312,7 +319,14 @@ func vfRunServer(c vfC14Case, cut int, wrap bool) (*vfObservation, []Trace) {
 	if c.Resp.End == "error" {
 		rec.failAfter = len(c.Resp.Body) * 2 / 3
 	}
-	handler.ServeHTTP(rec, req)
+	func() {
+		defer func() {
+			if p := recover(); p != nil {
+				obs.Panic = fmt.Sprint(p) // (the server around the handler deals with it; with tracing it must still arrive there)
+			}
+		}()
+		handler.ServeHTTP(rec, req)
+	}()
 	obs.Status = rec.status
 	obs.Header = rec.snapshot
 	obs.Trailer = vfHeaderStr(rec.header)
@@ -382,6 +396,9 @@ func vfC14Check(c vfC14Case) error {
 			}
 			if c.Side == "server" && c.Resp.End == "error" && len(c.Resp.Body) == 0 {
 				respEndErr = "" // nothing written, nothing failed
+			}
+			if c.Side == "server" && c.HandlerPanics && respEndErr == "" {
+				respEndErr = "panic: " + http.ErrAbortHandler.Error()
 			}
 			model = append(model, vfModelBody(c.Resp, len(obs.RespData), false, respEndErr)...)
 		}
@@ -549,11 +566,18 @@ func vfGenC14(t *rapid.T) vfC14Case {
 	if c.Side == "server" && c.Resp.End == "eof-with-data" {
 		c.Resp.End = "eof"
 	}
+	c.HandlerPanics = c.Side == "server" && rapid.IntRange(0, 4).Draw(t, "handlerPanics") == 0
+	if c.HandlerPanics {
+		c.Trailers = false
+	}
 	return c
 }
 
 func vfC14Classify(c vfC14Case) ([]string, bool) {
 	cl := []string{"side:" + c.Side}
+	if c.HandlerPanics {
+		cl = append(cl, "handler-panics")
+	}
 	nt := false
 	for _, spec := range []vfBodySpec{c.Req, c.Resp} {
 		stream, _ := vfProtocolOf(spec)
